@@ -239,6 +239,6 @@ CaseResult body_dense(Chooser& ch, Stats* st) { return body(ch, st, 2); }
 int main(int argc, char** argv) {
   Options o = parse_options(argc, argv);
   Prop a{"kkt_small", body_small, 4.0, 1, 1536, 60}, b{"kkt_large_sparse", body_large, 1.0, 1, 4096, 120},
-       d{"kkt_medium_dense", body_dense, 0.5, 1, 2048, 120};
+       d{"kkt_medium_dense", body_dense, 2.0, 1, 2048, 120};
   return run_main(o, "C11", {a, b, d});
 }
